@@ -748,7 +748,9 @@ class Engine:
             raise OutOfSubset(f"subscript of concrete {type(o).__name__} with symbolic index")
         i = self.as_sym(i)
         if isinstance(s, SeqS):
-            idx = self.norm_index(self._int(i), v.d[1], st)
+            # in contract expressions indexing is mathematical: seq[k] is the k-th element,
+            # no negative wrap-around, total (unspecified outside 0..len-1)
+            idx = self._int(i) if self.spec_mode else self.norm_index(self._int(i), v.d[1], st)
             e = V.seq_select(v, idx)
             if not self.spec_mode:
                 st.assume(V.wf(e))
